@@ -66,7 +66,9 @@ type C struct {
 	Sp    Span
 }
 
-// link table with a guard
+// link table with a guard; custom queries whose table names touch punctuation
+// gomacro:QUERY PurgeLink2 DELETE FROM Link2;
+// gomacro:QUERY BumpLink2 UPDATE Link2 SET Note = $note$ WHERE Link2.IdA = $ida$;
 type Link2 struct {
 	IdA  IdA
 	IdC  IdC
@@ -134,6 +136,7 @@ func TestGovcHarness_Placeholders(t *testing.T) {
 	type tinfo struct {
 		cols     map[string]bool
 		writable []string // non guard columns, without the serial id of primary tables, in column order
+		scanned  []string // non guard columns, in column order
 	}
 	schema := map[string]tinfo{}
 	for _, ta := range ansql.SelectTables(ana) {
@@ -141,6 +144,9 @@ func TestGovcHarness_Placeholders(t *testing.T) {
 		for i, c := range ta.Columns {
 			name := strings.ToLower(c.Field.Field.Name())
 			ti.cols[name] = true
+			if _, isGuard := c.Field.IsSQLGuard(); !isGuard {
+				ti.scanned = append(ti.scanned, name)
+			}
 			if _, isGuard := c.Field.IsSQLGuard(); isGuard || i == ta.Primary() {
 				continue
 			}
@@ -194,6 +200,22 @@ func TestGovcHarness_Placeholders(t *testing.T) {
 		for _, c := range reCmp.FindAllStringSubmatch(query, -1) {
 			if !ti.cols[strings.ToLower(c[1])] {
 				fail("statement %q compares %s, which is not a column of %s", query, c[1], tm[1])
+			}
+		}
+		// qualified columns name an existing table
+		for _, q := range regexp.MustCompile(`(\w+)\.(\w+)\s*=`).FindAllStringSubmatch(query, -1) {
+			if _, ok := schema[q[1]]; !ok {
+				fail("statement %q qualifies a column with %s, which is not a table of the schema", query, q[1])
+			}
+		}
+		// RETURNING lists exactly the scan destinations: the non-guard columns, in column order (or the id alone)
+		if rm := regexp.MustCompile(`(?i)RETURNING\s+([^;"]+)`).FindStringSubmatch(query); rm != nil {
+			var got []string
+			for _, c := range strings.Split(rm[1], ",") {
+				got = append(got, strings.ToLower(strings.TrimSpace(c)))
+			}
+			if !(len(got) == 1 && got[0] == "id") && strings.Join(got, ",") != strings.Join(ti.scanned, ",") {
+				fail("statement %q returns %v; the scan destinations of %s are %v", query, got, tm[1], ti.scanned)
 			}
 		}
 		// INSERT writes exactly the writable columns, in column order
